@@ -106,6 +106,10 @@ const (
 	// the most recently run action block instead of the current position
 	// and an empty text.
 	QPredStale = "pred-stale-cur"
+	// QMaxFailOrigin: a farthest failure at offset 0 is always reported at
+	// 1:1 (the initial value of the failure position) instead of the
+	// line:col of offset 0, which differ when the input starts with a newline.
+	QMaxFailOrigin = "maxfail-origin"
 )
 
 type store struct {
@@ -132,12 +136,13 @@ type FailRec struct {
 
 // ErrRec is one error the reference expects in the list.
 type ErrRec struct {
-	Off      int    // position offset
-	Rule     string // display name or name; "" if outside any rule
-	Inner    string
-	Kind     string // script | panic | nomatch | entrypoint | norule | encoding
-	Seq      int
-	Expected []string
+	Off         int    // position offset
+	Rule        string // display name or name; "" if outside any rule
+	Inner       string
+	Kind        string // script | panic | nomatch | entrypoint | norule | encoding
+	Seq         int
+	Expected    []string
+	PosOverride *[3]int
 }
 
 // Outcome kinds.
@@ -296,7 +301,11 @@ func Run(g *Grammar, in []byte, script map[int]*rtapi.Block, o Options) (res *Re
 		res.Val = "nil"
 		if len(ip.errs) == 0 {
 			off, exp := ip.Farthest()
-			ip.errs = append(ip.errs, ErrRec{Off: off, Kind: "nomatch", Inner: "no match found, expected: " + listJoin(exp), Expected: exp})
+			er := ErrRec{Off: off, Kind: "nomatch", Inner: "no match found, expected: " + listJoin(exp), Expected: exp}
+			if off == 0 && o.Quirks[QMaxFailOrigin] {
+				er.PosOverride = &[3]int{1, 1, 0}
+			}
+			ip.errs = append(ip.errs, er)
 		}
 	}
 	finish()
@@ -726,7 +735,9 @@ func ErrMessage(pt *PosTable, filename string, e ErrRec) string {
 	if filename != "" {
 		b.WriteString(filename + ":")
 	}
-	if e.Off < 0 {
+	if e.PosOverride != nil {
+		fmt.Fprintf(&b, "%d:%d (%d)", e.PosOverride[0], e.PosOverride[1], e.PosOverride[2])
+	} else if e.Off < 0 {
 		b.WriteString("1:0 (0)")
 	} else {
 		p := pt.At(e.Off)
